@@ -4,6 +4,8 @@ from common import *
 
 # archetype indices in the harness world: One=0 (1 column), Two=1, Thr=2 (Key, Zed, Pad), Fou=3 ...
 ONE, TWO, THR, FOU = 0, 1, 2, 3
+# archetypes with permuted column orders in the narrow world: Zfr = (Zed, Key, Pad), Pfr = (Pad, Zno, Key)
+ZFR, PFR = 4, 5
 
 
 def scen(name, archs, caps, L, D, **kw):
@@ -23,7 +25,9 @@ def fam_SA(tier, L=None, D=None, **kw):
 def fam_SB(tier, L=None, D=None, **kw):
     """Two (thorough: three) archetypes: world-level dispatch, multi-archetype queries."""
     if tier == "quick":
-        return [scen("S-B/caps%s" % "".join(map(str, c)), [ONE, THR], c, L or 2, D or 7, iter_destroy=[100, 101, 102], iter_destroy_max_n=3, **kw) for c in ([0, 0], [2, 1])]
+        # the second scenario uses the archetype with id 200 (ids >= 128 in the handle's archetype byte)
+        return [scen("S-B/caps00", [ONE, THR], [0, 0], L or 2, D or 7, iter_destroy=[100, 101, 102], iter_destroy_max_n=3, **kw),
+                scen("S-B/id200/caps21", [ONE, FOU], [2, 1], L or 2, D or 7, iter_destroy=[100, 101, 102], iter_destroy_max_n=3, **kw)]
     out = [scen("S-B/caps%s" % "".join(map(str, c)), [ONE, THR], c, L or 3, D or 9, iter_destroy=[100, 101, 102], iter_destroy_max_n=4, **kw) for c in ([0, 0], [2, 1], [0, 3])]
     out.append(scen("S-B3/caps000", [ONE, THR, FOU], [0, 0, 0], 2, (D or 9) - 1, iter_destroy=[100, 102], iter_destroy_max_n=4, **kw))
     return out
@@ -98,7 +102,17 @@ def fam_SC32(tier, **kw):
     return [scen("S-C32/arity%d" % ar, [idx], [1], L, D, iter_destroy=[idx], iter_destroy_max_n=2, key_kinds=[0, 1, 3], **kw) for idx, ar in ((4, 17), (5, 24), (6, 32))]
 
 
-FAMILIES = {"SC32": fam_SC32, "SAN": fam_SAN, "SA": fam_SA, "SB": fam_SB, "SC": fam_SC, "SD": fam_SD, "SE": fam_SE, "SF": fam_SF, "SG": fam_SG}
+def fam_SP(tier, L=None, D=None, **kw):
+    """Archetypes whose columns are declared in a permuted order (zero-sized column first; Key column last)."""
+    L0, D0 = (3, 6) if tier == "quick" else (3, 8)
+    L, D = L or L0, D or D0
+    out = [scen("S-P/zfr/cap%d" % c, [ZFR], [c], L, D, iter_destroy=[ZFR], iter_destroy_max_n=2, **kw) for c in ((1,) if tier == "quick" else (0, 2))]
+    out += [scen("S-P/pfr/cap%d" % c, [PFR], [c], L, D, iter_destroy=[PFR], iter_destroy_max_n=2, **kw) for c in ((0,) if tier == "quick" else (0, 1))]
+    out.append(scen("S-P2/caps01", [THR, ZFR], [0, 1], 2, D - 1 if tier == "quick" else D - 2, iter_destroy=[100, 102], iter_destroy_max_n=2, **kw))
+    return out
+
+
+FAMILIES = {"SP": fam_SP, "SC32": fam_SC32, "SAN": fam_SAN, "SA": fam_SA, "SB": fam_SB, "SC": fam_SC, "SD": fam_SD, "SE": fam_SE, "SF": fam_SF, "SG": fam_SG}
 
 
 def journal_candidates(jdir):
